@@ -163,6 +163,10 @@ class RunTest:
         if self.exception_caught == self._run_user(self.case._run_setup, self.result):
             # Don't run the test method if we failed getting here.
             self._run_cleanups(self.result)
+            if getattr(self.case, "force_failure", None):
+                # A failed expectThat must not be lost because setUp went on
+                # to raise something harmless (a skip, say).
+                self._run_user(_raise_force_fail_error)
             return
         # Run everything from here on in. If any of the methods raise an
         # exception we'll have failed.
